@@ -123,3 +123,24 @@ claim("C20", "Exact decision of: Equals/UncheckedEquals clause lockstep over phy
       "memmove copy behind Ok/size guards (R-COPY).",
       _CNOTE + "Not decided: byte-level post-conditions, symmetry on arbitrary buffers.",
       "lockstep / sibling / interface completeness analysis")
+
+# Clauses added after the claim texts above were written (rules from the seeded-change rounds; DESIGN.md 3.7).
+_ADDED = {
+    "C01": "Ok() grouping records every field on every path and emits every group (R-OKCOVER); synthesised size/$next expressions have the documented shape (R-SYNTH); intermediate and selected C++ integer types (R-INTERMEDIATE, R-INTRANGE).",
+    "C02": "every OffsetBitBlock method that touches the underlying block applies offset_ (R-WINDOW).",
+    "C03": "alias write method only for virtual fields without their own [requires] (R-ALIASGUARD); window offset applied on every storage access (R-WINDOW).",
+    "C04": "static (alignment, offset) of a sub-buffer depends on parent and relative facts (R-SUBALIGN); sub-buffer size clamped with guarded unsigned difference (R-CLAMP); R-INTRANGE, R-INTERMEDIATE.",
+    "C05": "leaf ranges and 64-bit predicates folded for every width (R-INTRANGE); C++ intermediate type covers result and operands (R-INTERMEDIATE).",
+    "C06": "writer and reader templates of text names get the same name expression (R-TEXTNAME); overflow guard depends on every operand (R-GUARDDEPS).",
+    "C09": "the generator's reader of error_examples agrees with the checker's reader and stores messages unrewritten (R-EXAMPLEFILE).",
+    "C10": "tokenizer and error printer cut lines identically (R-LINESPLIT); Indent/Dedent pairing (R-INDENT).",
+    "C11": "children emitted in right-hand-side order (R-FMTORDER); glued seams re-tokenize unchanged (R-ADJACENCY).",
+    "C12": "lookups behind a field reference use its last component (R-PATHEND); reviewed skip_descendants_of losses (R-SKIPLOSS); duplicate definitions never overwrite (R-DUPNAME).",
+    "C13": "positional requirements are unconditional (R-POSCHECK/conditional); enum identity (R-TYPEEQ); reviewed traversal skips (R-SKIPLOSS).",
+    "C14": "reviewed traversal skips of the constraint validators (R-SKIPLOSS); in-place mutation of shared defaults (R-INCIDENTAL-PURE); boundary intervals (R-BOUNDARY).",
+    "C15": "reviewed traversal skips of the dependency extraction (R-SKIPLOSS).",
+    "C18": "no private encoder of location flags with exclusive or different suffixes (R-LOCENCODE).",
+    "C19": "enum name writer/reader agreement (R-TEXTNAME), whole-string name compare (R-EXACTNAME), boundary intervals (R-BOUNDARY, R-INTRANGE).",
+}
+for _pid, _t in _ADDED.items():
+    CLAIMS[_pid]["text"] += " Also decided: " + _t
